@@ -158,6 +158,10 @@ def generate(ctx):
     rng = ctx.rng
     for lines, meta in pathological(rng) + chm_cycles(rng):
         yield ["edges on"] + lines, meta
+    for (label, case, j, declared) in S.chm_sec0_beyond_length(rng):
+        nm = case["meta"]["order"][0]
+        yield ["edges on"] + S.file_lines(case) + ["new chm", f"open i0 {nm}", f"extract i0 h0 {j} o{j}", "close i0 h0", "destroy i0"], \
+              dict(family="chm.sec0-beyond-length", label=label)
     n = 50 if ctx.tier == "quick" else 2500
     for case in S.valid_cases(rng, n, avoid_defects=True):
         for files, how in [(case["files"], "valid")] + S.malform(rng, case, 3 if ctx.tier == "quick" else 6):
